@@ -271,6 +271,85 @@ def emit_expr(e, names):
     raise Err("emit: " + k)
 
 
+
+# ---------- tables for the termination argument (PegTerm.v checks them; nothing here is trusted) ----------
+def nullable(e, nl):
+    k = e[0]
+    if k == "str":
+        return len(e[1]) == 0
+    if k == "range":
+        return False
+    if k == "call":
+        return nl.get(e[1], False)
+    if k == "seq":
+        return nullable(e[1], nl) and nullable(e[2], nl)
+    if k == "alt":
+        return nullable(e[1], nl) or nullable(e[2], nl)
+    return True          # opt rep not and soi eoi
+
+
+def callee_atomic(mod, at):
+    if mod in ("atomic", "compound"):
+        return True
+    if mod == "nonatomic":
+        return False
+    return at
+
+
+def lh(at, e, rk, nl, mods, subs=None):
+    """leftmost height of e in a rule body whose atomicity is `at` (True = no implicit skipping)"""
+    skh = 1 if at else 4 + rk[True].get("WHITESPACE", 0)
+    k = e[0]
+    if k in ("str", "range", "soi", "eoi"):
+        v = 1
+    elif k == "call":
+        v = 1 + rk[callee_atomic(mods.get(e[1], "normal"), at)].get(e[1], 0)
+    elif k == "seq":
+        a = lh(at, e[1], rk, nl, mods, subs)
+        b = lh(at, e[2], rk, nl, mods, subs)
+        v = 1 + max(a, skh, b if nullable(e[1], nl) else 0)
+    elif k == "alt":
+        v = 1 + max(lh(at, e[1], rk, nl, mods, subs), lh(at, e[2], rk, nl, mods, subs))
+    elif k in ("opt", "not", "and"):
+        v = 1 + lh(at, e[1], rk, nl, mods, subs)
+    elif k == "rep":
+        a = lh(at, e[1], rk, nl, mods, subs)
+        tail = 1 + max(skh, a)
+        if subs is not None:
+            subs.append(tail)
+        v = 1 + max(a, tail)
+    else:
+        raise Err("lh: " + k)
+    if subs is not None:
+        subs.append(v)
+    return v
+
+
+def termination_tables(rules):
+    mods = {n: m for n, m, _ in rules}
+    bodies = {n: e for n, _, e in rules}
+    bodies["EOI"] = ("eoi",)
+    mods["EOI"] = "normal"
+    nl = {n: False for n in bodies}
+    for _ in range(len(bodies) + 2):
+        new = {n: nullable(bodies[n], nl) for n in bodies}
+        if new == nl:
+            break
+        nl = new
+    rk = {True: {n: 0 for n in bodies}, False: {n: 0 for n in bodies}}
+    for _ in range(400):
+        new = {b: {n: lh(b, bodies[n], rk, nl, mods) for n in bodies} for b in (True, False)}
+        if new == rk:
+            break
+        rk = new
+    subs = []
+    for b in (True, False):
+        for n in bodies:
+            lh(b, bodies[n], rk, nl, mods, subs)
+    bound = max(subs + [5 + rk[True].get("WHITESPACE", 0)])
+    return nl, rk, bound
+
+
 def main():
     repo = sys.argv[1] if len(sys.argv) > 1 else "/repo"
     path = repo + "/src/parser/grammar/json_path_9535.pest"
@@ -307,6 +386,17 @@ def main():
     out.append("  | R_EOI => (KNormal, EEoi)\n  end.")
     out.append("")
     out.append("Definition grammar : peg rname := {| g_rule := rule_of; g_ws := R_WHITESPACE; g_eoi := R_EOI |}.")
+    nl, rk, bound = termination_tables(rules)
+    allnames = names + ["EOI"]
+    out.append("")
+    out.append("(* tables for the termination argument: proposed here, CHECKED in TermCheck.v (a wrong table fails the check) *)")
+    out.append("Definition rule_nullable (r : rname) : bool :=\n  match r with\n" +
+               "\n".join("  | R_%s => %s" % (n, "true" if nl[n] else "false") for n in allnames) + "\n  end.")
+    for b, nm in ((True, "rule_rank_atomic"), (False, "rule_rank_nonatomic")):
+        out.append("Definition %s (r : rname) : nat :=\n  match r with\n" % nm +
+                   "\n".join("  | R_%s => %d" % (n, min(rk[b][n], 5000)) for n in allnames) + "\n  end.")
+    out.append("Definition rule_rank (atomic : bool) (r : rname) : nat := if atomic then rule_rank_atomic r else rule_rank_nonatomic r.")
+    out.append("Definition rank_bound : nat := %d." % min(bound, 5000))
     print("\n".join(out))
 
 
